@@ -224,9 +224,12 @@ for _i, case in enumerate(payload["cases"]):
         continue
     names = case["names"]
     den = float(case["den"])
-    rel = {names[i]: k / den for i, k in case["rel"]}
-    red = {(names[i], names[j]): k / den for i, j, k in case["red"]}
-    rln = {(names[i], names[j]): k / den for i, j, k in case["rln"]}
+
+    def val(k):          # an integer k means k/den, a string is a float.hex() literal (exact)
+        return float.fromhex(k) if isinstance(k, str) else k / den
+    rel = {names[i]: val(k) for i, k in case["rel"]}
+    red = {(names[i], names[j]): val(k) for i, j, k in case["red"]}
+    rln = {(names[i], names[j]): val(k) for i, j, k in case["rln"]}
     try:
         if case.get("defaults"):
             df = rank_features_3MR(rel, red, rln)
